@@ -265,7 +265,8 @@ theorem rnd_inRange : rnd.InRange pk.params := by
     primality oracle accepts everything). -/
 theorem sig_exists : ∃ sig, clVerifyWith (fun _ => true) pk sig [3, 5, 7] = .ok true ∧
     sig.keyshareP = none := by
-  obtain ⟨sig, h⟩ := C05.sign_succeeds pk 15 [3, 5, 7] 6 e pk_inGroup (by decide) e_gcd
+  obtain ⟨sig, h⟩ := C05.sign_succeeds_of_nonneg pk 15 [3, 5, 7] 6 e pk_inGroup (by decide)
+    (by decide) e_gcd
   exact ⟨sig, C05.sign_verifies _ pk 15 [3, 5, 7] 6 e sig pk_inGroup (by decide) e_int rfl h,
     (clSignWith_keyshareP h).1⟩
 
